@@ -23,6 +23,7 @@ import (
 	"github.com/smartcontractkit/wsrpc/peer"
 	"google.golang.org/grpc/connectivity"
 	"google.golang.org/protobuf/proto"
+	"google.golang.org/protobuf/types/known/structpb"
 )
 
 // goroutines of the client side of the library that are still alive
@@ -499,6 +500,68 @@ func vC09Scenario(name string, seed uint64) string {
 			return "close-hangs/" + strings.Join(vParked(), ",")
 		}
 		return w.aftermath(time.Since(start), bound)
+	case "peer-answers-each-call-several-times":
+		// a peer which sends several copies of every response (large ones, so that copies arrive while the caller is still
+		// decoding the first); the calls run under a context which never ends. Every call returns its reply, and Close
+		// returns: nothing which handled a surplus copy may be left waiting for anybody
+		skey, ckey := vGenKey(r), vGenKey(r)
+		rs := vStartRawServer(skey, ckey.Pub)
+		defer rs.Close()
+		cc, err := vDialLib(context.Background(), rs.Addr, ckey, skey.Pub, WithBlock())
+		if err != nil {
+			return "setup"
+		}
+		conn := <-rs.Conns
+		vals := make([]*structpb.Value, 60000)
+		for i := range vals {
+			vals[i] = structpb.NewNumberValue(float64(i))
+		}
+		big, _ := proto.Marshal(&structpb.ListValue{Values: vals})
+		copies := 3 + r.Intn(3)
+		go func() {
+			for {
+				_, b, err := conn.ReadMessage()
+				if err != nil {
+					return
+				}
+				m := &message.Message{}
+				if proto.Unmarshal(b, m) != nil || m.GetRequest() == nil {
+					continue
+				}
+				f, _ := proto.Marshal(&message.Message{Exchange: &message.Message_Response{Response: &message.Response{CallId: m.GetRequest().GetCallId(), Payload: big}}})
+				for k := 0; k < copies; k++ {
+					if conn.WriteMessage(websocket.BinaryMessage, f) != nil {
+						return
+					}
+				}
+			}
+		}()
+		for i := 0; i < 3; i++ {
+			out := &structpb.ListValue{}
+			res := make(chan error, 1)
+			go func() { res <- cc.Invoke(context.Background(), "Echo", vAppMsg(fmt.Sprintf("dup%d", i), nil, ""), out) }()
+			select {
+			case err := <-res:
+				if err != nil || len(out.Values) != len(vals) {
+					return fmt.Sprintf("call-answered-several-times-fails/%v/%d", err, len(out.Values))
+				}
+			case <-time.After(5 * time.Second):
+				return "call-answered-several-times-hangs/" + strings.Join(vParked(), ",")
+			}
+		}
+		time.Sleep(100 * time.Millisecond)
+		start := time.Now()
+		if !vClose(cc, 6*time.Second) {
+			return "close-hangs/" + strings.Join(vParked(), ",")
+		}
+		if took := time.Since(start); took > bound {
+			return fmt.Sprintf("close-exceeds-bound/%v", took)
+		}
+		time.Sleep(50 * time.Millisecond)
+		if left := vClientLeft(); len(left) > 0 {
+			return "goroutines-left-after-close/" + strings.Join(left, ",")
+		}
+		return ""
 	case "close-after-dial-context-ended-and-connection-lost":
 		// the context given to DialWithContext ends after the connection is up (the documented `defer cancel()`), then the
 		// connection is lost, then Close: Close must still return and leave nothing behind
@@ -667,7 +730,7 @@ func vC09Scenario(name string, seed uint64) string {
 	return "unknown-scenario"
 }
 
-var vC09Names = []string{"idle-longer-than-write-timeout", "calls-in-flight", "inbound-requests-with-slow-handlers", "reconnect-in-progress", "inbound-burst", "concurrent-close", "close-right-after-dial", "write-fails-with-message-in-hand", "peer-closed-first", "close-while-call-is-being-prepared", "reconnect-after-several-failures", "close-after-dial-context-ended-and-connection-lost"}
+var vC09Names = []string{"idle-longer-than-write-timeout", "calls-in-flight", "inbound-requests-with-slow-handlers", "reconnect-in-progress", "inbound-burst", "concurrent-close", "close-right-after-dial", "write-fails-with-message-in-hand", "peer-closed-first", "close-while-call-is-being-prepared", "reconnect-after-several-failures", "close-after-dial-context-ended-and-connection-lost", "peer-answers-each-call-several-times"}
 
 func TestVerifC09Child(t *testing.T) {
 	spec := vChildSpec()
